@@ -123,6 +123,10 @@ class L2Domain:
             self.ctx.event('slot-store', slots=base, index=idx, value=v)
         return False
 
+    def on_call(self, it, fn, args, kwargs):
+        if fn.name.startswith('__') and not fn.name.endswith('__'):
+            self.ctx.event('call', callee=fn, args=list(args), kwargs=dict(kwargs))
+
     def on_branch(self, it, node, v, outcome):
         self.ctx.event('branch', outcome=outcome, decided=False, expr=v.tags.get('expr') if isinstance(v, Arr) else None, value=v, test=node)
 
